@@ -42,6 +42,39 @@ func main() {
 	}
 	rewritten := map[string]int{}
 	used := map[string]int{}
+	// calls listed as hook:<callee> (an epoll_wait(epfd, events, msec) function) become
+	// verifsched.EpollWaitHook(msec, func(m int) (int, error) { return <callee>(epfd, events, m) })
+	ast.Inspect(f, func(n ast.Node) bool {
+		ce, ok := n.(*ast.CallExpr)
+		if !ok || len(ce.Args) != 3 {
+			return true
+		}
+		key := ""
+		switch fn := ce.Fun.(type) {
+		case *ast.Ident:
+			key = "hook:" + fn.Name
+		case *ast.SelectorExpr:
+			if id, ok := fn.X.(*ast.Ident); ok {
+				key = "hook:" + names[id.Name] + "." + fn.Sel.Name
+			}
+		}
+		if key == "" || !want[key] {
+			return true
+		}
+		inner := &ast.CallExpr{Fun: ce.Fun, Args: []ast.Expr{ce.Args[0], ce.Args[1], ast.NewIdent("verifM")}}
+		lit := &ast.FuncLit{
+			Type: &ast.FuncType{
+				Params:  &ast.FieldList{List: []*ast.Field{{Names: []*ast.Ident{ast.NewIdent("verifM")}, Type: ast.NewIdent("int")}}},
+				Results: &ast.FieldList{List: []*ast.Field{{Type: ast.NewIdent("int")}, {Type: ast.NewIdent("error")}}},
+			},
+			Body: &ast.BlockStmt{List: []ast.Stmt{&ast.ReturnStmt{Results: []ast.Expr{inner}}}},
+		}
+		msec := ce.Args[2]
+		ce.Fun = &ast.SelectorExpr{X: ast.NewIdent("verifsched"), Sel: ast.NewIdent("EpollWaitHook")}
+		ce.Args = []ast.Expr{msec, lit}
+		rewritten[key]++
+		return false
+	})
 	ast.Inspect(f, func(n ast.Node) bool {
 		se, ok := n.(*ast.SelectorExpr)
 		if !ok {
